@@ -424,6 +424,10 @@ func (v *SequenceDiagramVisitor) visitEndpoint(e *EndpointElement) error {
 					}
 					fmt.Fprintf(v.w, "note %s: %s\n", direct, upto.Comment)
 				}
+			} else if len(payload) > 0 {
+				// a call already in progress (no blackbox entry) is shown but not expanded: its return
+				// below deactivates the agent, so it has to be activated here as in the blackbox case
+				v.w.Activate(agent)
 			}
 			if len(payload) > 0 {
 				if !isHidden {
